@@ -419,9 +419,10 @@ func init() { engine.Register("C20", func() engine.Check { return &c20{} }) }
 func (c *c20) ID() string { return "C20" }
 func (c *c20) Meta() engine.Meta {
 	return engine.Meta{
-		Category:  "model_checking",
-		LevelName: "1 = unpruned DFS of request sequences (length and decoration set per tier), 2 = BFS with state de-duplication over the fully decorated alphabet",
-		Technique: "explicit-state exploration of signing-request sequences with reload / failing-write faults on the real SFilePV, invariant over the set of released signatures",
+		Category:    "model_checking",
+		CaseTimeout: 2 * time.Hour,
+		LevelName:   "1 = unpruned DFS of request sequences (length and decoration set per tier), 2 = BFS with state de-duplication over the fully decorated alphabet",
+		Technique:   "explicit-state exploration of signing-request sequences with reload / failing-write faults on the real SFilePV, invariant over the set of released signatures",
 		Rule: "requests = {proposal,prevote,precommit} x height{1,2} x round{0,1} x block{A,B,nil(votes)} x timestamp{t1,t2} (64), each optionally preceded by a reload of the signer from its key+state files and/or executed while the state directory is missing (the atomic write panics; the panic is recovered, the request struct inspected, the process 'restarts'). " +
 			"Oracle over ALL signatures ever released: one content per height/round/step (timestamp aside), no signature below the highest h/r/s signed, same message -> original signature and timestamp, every signature verifies for the message handed back, after every fresh signature the state file names exactly that message, nothing is released when the write failed. " +
 			"non-trivial = shard/BFS in which at least one request was refused or re-served.",
